@@ -190,7 +190,7 @@ func (s *Service) Start(ctx context.Context) error {
 // started or isn't running this has no effect. Close is safe to call
 // multiple times.
 func (s *Service) Close() {
-	if s.isRunning.Load() && s.cancel != nil {
+	if s.isStarted.Load() && s.cancel != nil {
 		s.cancel()
 	}
 }
